@@ -42,7 +42,7 @@ def parseDim (j : Json) : Except String (Option Dim) :=
 
 def parseKind (s : String) : Except String Kind :=
   match s with
-  | "normal" => .ok .normal | "fcm" => .ok .fcm | "otherRV" => .ok .otherRV | "nonRV" => .ok .nonRV
+  | "normal" => .ok .normal | "fcm" => .ok .fcm | "otherRV" => .ok .otherRV | "unnamedOp" => .ok .unnamedOp
   | "noOwner" => .ok .noOwner | "notTensor" => .ok .notTensor
   | _ => .error s!"bad kind {s}"
 
@@ -105,7 +105,7 @@ def optIntNull (j : Json) (k : String) : Except String (Option Int) := optInt j 
 
 def parseParsStatus (s : String) : Except String ParsStatus :=
   match s with
-  | "ok" => .ok .ok | "invalid" => .ok .invalid | "crash" => .ok .crash
+  | "ok" => .ok .ok | "invalid" => .ok .invalid
   | _ => .error s!"bad parsStatus {s}"
 
 def answer (r : Except Err (List PriorV.Name)) : Json :=
